@@ -67,6 +67,7 @@ class Cfg:
     keys_thorough: int = 8
     depth: int = 64
     depth_thorough: Optional[int] = None  # deeper bound of the thorough tier (default: the same depth)
+    keys_legal_quick: Optional[int] = None  # quick-tier key window of the (much smaller) legal-actions-only graphs
     max_states_quick: int = 30_000
     max_states_thorough: int = 300_000
     time_limit: Optional[int] = None  # the configured time limit if the env takes one (C11)
@@ -365,7 +366,7 @@ CATALOG: List[Cfg] = [
        keys_quick=2, keys_thorough=4, time_limit=3),
     # THREE agents (two nodes each) on 9 nodes: 729 joint actions, three-way ties and blocks by several agents
     _c("mmst-9x3-T3", "mmst", "MMST(G.mmst.SplitRandomGenerator(9, 12, 4, 3, 2, 3), time_limit=3)", kind="awkward",
-       keys_quick=6, keys_thorough=12, time_limit=3, max_states_quick=20000, ref_states_quick=20000,
+       keys_quick=6, keys_thorough=12, keys_legal_quick=12, time_limit=3, max_states_quick=20000, ref_states_quick=20000,
        max_states_thorough=20_000),
     _c("mmst-default", "mmst", "MMST()", kind="default", depth=1, keys_quick=1, keys_thorough=1,
        time_limit=70, quick=False),
